@@ -1,7 +1,109 @@
-(* Property C08 (work in progress: theorems are added as they are proved). *)
-From Coq Require Import List ZArith.
+(* Property C08: max_flow (solvor/flow.py) returns a feasible flow whose value is the maximum.
+   Only statements + `exact <lemma>`; the proofs are in C08/MaxFlow{Sums,Maps,Aug,Bfs,Duality,Proofs,Pinned}.v.
+   Model: C08/MaxFlow.v (max_flow = the code after commit f2b9028; max_flow_pinned = the code before it).
+   Specification: C08/MaxFlowSpec.v (DESIGN.md Appendix A: cap_of, net_out, feasible_flow, flow_value, is_max_flow).
+   valid_input g s t = source <> sink and all capacities >= 0 (max_flow(g, s, s) does not return). *)
+From Coq Require Import List ZArith Bool.
 Import ListNotations.
 From SV Require Import C08.MaxFlow C08.MaxFlowSpec.
+From SV Require C08.MaxFlowAug C08.MaxFlowBfs C08.MaxFlowDuality C08.MaxFlowProofs C08.MaxFlowPinned.
+Open Scope Z_scope.
 
-Example C08_nonvacuous : exists r, max_flow witness_graph 0 5 = Some r /\ objective r = 2%Z.
-Proof. vm_compute. eauto. Qed.
+(* (1) one augmentation along a simple path of positive residual capacity, with the cancel-reverse-flow-first
+   rule, keeps 0 <= flow <= capacity and conservation, moves `path_flow > 0` units from s to t *)
+Theorem aug_preserves : forall cap V s t flow total p d,
+  NoDup V -> (forall x, In x p -> In x V) -> s <> t ->
+  MaxFlowAug.flow_inv cap V s t flow total -> MaxFlowAug.aug_path cap flow s t p ->
+  path_flow cap flow p = Some d ->
+  0 < d /\ MaxFlowAug.flow_inv cap V s t (augment flow d p) (total + d).
+Proof. exact MaxFlowAug.aug_preserves. Qed.
+Print Assumptions aug_preserves.
+
+(* (2) the returned dictionary is a feasible flow ... *)
+Theorem C08_feasible : forall g s t, valid_input g s t = true -> forall r, max_flow g s t = Some r ->
+  feasible_flow (nodes_of (arcs g) s t) (arcs g) s t (fmap_of (solution r)).
+Proof. exact MaxFlowProofs.max_flow_feasible. Qed.
+Print Assumptions C08_feasible.
+
+(* ... whose net flow into the sink (and out of the source) is the reported objective *)
+Theorem C08_value : forall g s t, valid_input g s t = true -> forall r, max_flow g s t = Some r ->
+  flow_value (nodes_of (arcs g) s t) (fmap_of (solution r)) t = objective r
+  /\ net_out (nodes_of (arcs g) s t) (fmap_of (solution r)) s = objective r.
+Proof. exact MaxFlowProofs.max_flow_value. Qed.
+Print Assumptions C08_value.
+
+(* (3) when BFS returns None the visited set contains the source, not the sink, and is closed under ALL arcs
+   of positive residual capacity - because after f2b9028 every residual arc is a key of capacity[node] *)
+Theorem bfs_closed : forall g s t flow vis,
+  MaxFlowAug.bounded (build_capacity true g) flow ->
+  bfs (build_capacity true g) flow s t = Some (inr vis) ->
+  In s vis /\ ~ In t vis
+  /\ forall u v, In u vis -> 0 < residual (build_capacity true g) flow u v -> In v vis.
+Proof. exact MaxFlowProofs.bfs_closed. Qed.
+Print Assumptions bfs_closed.
+
+(* a returned path is a simple s-t path inside the visited set with positive residual capacity on every arc *)
+Theorem bfs_path : forall cap flow s t (P : nat -> Prop), P s -> (forall u x, In x (keys (nget cap u)) -> P x) ->
+  forall r, bfs cap flow s t = Some r -> MaxFlowBfs.bfs_post cap flow s t P r.
+Proof. exact MaxFlowBfs.bfs_spec. Qed.
+Print Assumptions bfs_path.
+
+(* (4) weak duality: any feasible flow, any s-t cut *)
+Theorem weak_duality : forall V s t inS, NoDup V -> In t V -> inS s = true -> inS t = false ->
+  forall g f, feasible_flow V g s t f -> flow_value V f t <= cut_cap V g inS.
+Proof. exact MaxFlowDuality.weak_duality_cut. Qed.
+Print Assumptions weak_duality.
+
+(* (5) maximality, no augmenting path, objective = capacity of a minimum cut *)
+Theorem C08_max : forall g s t, valid_input g s t = true -> forall r, max_flow g s t = Some r ->
+  is_max_flow (nodes_of (arcs g) s t) (arcs g) s t (fmap_of (solution r)).
+Proof. exact MaxFlowProofs.max_flow_max. Qed.
+Print Assumptions C08_max.
+
+Theorem C08_no_augmenting_path : forall g s t, valid_input g s t = true -> forall r, max_flow g s t = Some r ->
+  no_augmenting_path (nodes_of (arcs g) s t) (arcs g) s t (fmap_of (solution r)).
+Proof. exact MaxFlowProofs.max_flow_no_augmenting_path. Qed.
+Print Assumptions C08_no_augmenting_path.
+
+Theorem C08_min_cut : forall g s t, valid_input g s t = true -> forall r, max_flow g s t = Some r ->
+  exists inS, inS s = true /\ inS t = false
+    /\ cut_cap (nodes_of (arcs g) s t) (arcs g) inS = objective r
+    /\ forall inS', inS' s = true -> inS' t = false -> objective r <= cut_cap (nodes_of (arcs g) s t) (arcs g) inS'.
+Proof. exact MaxFlowProofs.max_flow_min_cut. Qed.
+Print Assumptions C08_min_cut.
+
+(* the whole property in the form of MaxFlowSpec.Spec (maximum + value + no augmenting path) *)
+Theorem C08_spec : forall g s t, valid_input g s t = true -> forall r, max_flow g s t = Some r ->
+  Spec (arcs g) s t (solution r) (objective r).
+Proof. exact MaxFlowProofs.max_flow_spec. Qed.
+Print Assumptions C08_spec.
+
+(* fuel: the model never runs out of fuel on a valid input (BFS fuel and outer-loop fuel) *)
+Theorem C08_terminates : forall g s t, valid_input g s t = true -> max_flow g s t <> None.
+Proof. exact MaxFlowProofs.max_flow_terminates. Qed.
+Print Assumptions C08_terminates.
+
+(* the boolean checker evaluated by the harness on the IMPLEMENTATION's outputs is sound *)
+Theorem C08_spec_check_sound : forall g s t sol obj, spec_check g s t sol obj = true -> Spec g s t sol obj.
+Proof. exact MaxFlowDuality.spec_check_sound. Qed.
+Print Assumptions C08_spec_check_sound.
+
+(* (6) the pinned code (without `capacity[v][u] += 0`) returns 1 on the witness; a feasible flow of value 2 exists *)
+Theorem C08_pinned_refuted :
+  exists g s t r,
+    valid_input g s t = true /\ max_flow_pinned g s t = Some r /\ objective r = 1
+    /\ flow_value (nodes_of (arcs g) s t) (fmap_of (solution r)) t = 1
+    /\ (exists f', feasible_flow (nodes_of (arcs g) s t) (arcs g) s t f'
+                   /\ flow_value (nodes_of (arcs g) s t) f' t = 2)
+    /\ ~ is_max_flow (nodes_of (arcs g) s t) (arcs g) s t (fmap_of (solution r)).
+Proof. exact MaxFlowPinned.pinned_refuted. Qed.
+Print Assumptions C08_pinned_refuted.
+
+(* non-vacuity *)
+Example C08_nonvacuous : exists r, max_flow witness_graph 0 5 = Some r /\ objective r = 2
+  /\ valid_input witness_graph 0 5 = true /\ spec_check (arcs witness_graph) 0 5 (solution r) (objective r) = true.
+Proof. eexists. split; [vm_compute; reflexivity|]. vm_compute. auto. Qed.
+
+Example C08_nonvacuous_pinned : exists r, max_flow_pinned witness_graph 0 5 = Some r /\ objective r = 1
+  /\ spec_check (arcs witness_graph) 0 5 (solution r) (objective r) = false.
+Proof. eexists. split; [vm_compute; reflexivity|]. vm_compute. auto. Qed.
